@@ -50,6 +50,9 @@ pub struct NodeState {
     pub outage_at: Option<u64>,
     /// shared with the simulated block source: the node as a whole is unreachable
     pub link: Option<std::sync::Arc<std::sync::atomic::AtomicBool>>,
+    /// every request put on the wire, in order, with the thread that made it and whether it was answered
+    /// (false = transport error); kept for the whole life of the node (C12)
+    pub wire: Vec<(std::thread::ThreadId, RpcKind, Option<Txid>, bool)>,
 }
 
 #[derive(Clone, Default)]
@@ -106,6 +109,24 @@ impl SimNode {
     }
 }
 
+/// kind and transaction of a request, read off the request itself (also when it will not be answered)
+fn wire_key(req: &Request) -> Option<(RpcKind, Option<Txid>)> {
+    let params: Vec<serde_json::Value> = match req.params {
+        Some(p) => serde_json::from_str(p.get()).unwrap_or_default(),
+        None => vec![],
+    };
+    let first = params.first().and_then(|v| v.as_str()).unwrap_or("");
+    match req.method {
+        "sendrawtransaction" => {
+            let bytes = hex::decode(first).unwrap_or_default();
+            let txid = consensus::deserialize::<Transaction>(&bytes).ok().map(|tx| tx.compute_txid());
+            Some((RpcKind::Send, txid))
+        }
+        "getrawtransaction" => Some((RpcKind::GetRaw, first.parse().ok())),
+        _ => None,
+    }
+}
+
 impl Transport for SimNode {
     fn send_request(&self, req: Request) -> Result<Response, Error> {
         let mut st = self.0.lock().unwrap();
@@ -120,6 +141,10 @@ impl Transport for SimNode {
         }
         if let Some(l) = &st.link {
             st.down = l.load(std::sync::atomic::Ordering::SeqCst);
+        }
+        if let Some((kind, txid)) = wire_key(&req) {
+            let answered = !st.down;
+            st.wire.push((std::thread::current().id(), kind, txid, answered));
         }
         if st.down {
             return Err(Error::Transport(Box::new(Outage)));
